@@ -333,14 +333,14 @@ static std::vector<MicroCfg> micro_menu()
   V.push_back({"exp1d", 1, [] { return Model::createFromParam(ECov::EXPONENTIAL, 2., 1.5); }, {{0.}, {1.}}, false, {}, 10, true});
   // anisotropic exponential (ranges 4 and 1) rotated by 30 degrees, observed along both coordinate axes: a swap of the
   // ranges, a rotation by the wrong sign or along the wrong axis moves C(1,0) / C(0,1) by 20-60 %
-  V.push_back({"aniso2d-rot", 2, [] { return Model::createFromParam(ECov::EXPONENTIAL, 1., 2., 1., {4., 1.}, VectorDouble(), {30., 0.}); }, {{0., 0.}, {1., 0.}, {0., 1.}}, false, {}, 10, false});
+  V.push_back({"aniso2d-rot", 2, [] { return Model::createFromParam(ECov::EXPONENTIAL, 1., 2., 1., {4., 1.}, VectorDouble(), {30., 0.}); }, {{0., 0.}, {1., 0.}, {0., 1.}}, false, {}, 6, false});
   // linear model of coregionalisation, 2 variables, 2 structures, non-diagonal sill matrices, non-zero means
   V.push_back({"lmc2", 1, [] {
                  Model* m = Model::createFromParam(ECov::SPHERICAL, 3., 1., 1., VectorDouble(), {2., 1., 1., 1.5});
                  m->addCovFromParam(ECov::EXPONENTIAL, 2., 1., 1., VectorDouble(), {0.5, -0.3, -0.3, 1.});
                  m->setMeans({3., -1.});
                  return m;
-               }, {{0.}, {1.}}, false, {}, 10, false});
+               }, {{0.}, {1.}}, false, {}, 6, false});
   return V;
 }
 
@@ -891,16 +891,17 @@ static std::vector<PopSim*> pop_menu()
   V.push_back(new SpdeSim("matern1-turbo7x7", false));
   // the cheap FFT configuration of the quick tier: 1-D grid of 4 nodes (dilated to 8), lags 1-3
   V.push_back(new FftSim("spherical-1d", [] { return Model::createFromParam(ECov::SPHERICAL, 2.5, 1.5); }, true, 4, 0));
-  // turning bands: every algorithm branch (thorough); "tb:matern0.3" = K-Bessel through the migration process
+  // turning bands: one configuration per algorithm branch of the band-generation switch (thorough): dilution (spherical,
+  // cubic), spectral with the three omega laws that differ (gaussian, sincard, Matern nu > 0.5 / stable alpha > 1), migration
+  // (Matern nu <= 0.5 through _computeScaleKB, stable alpha <= 1 through _computeScale; exponential = microsim exp1d),
+  // IRF process (linear) and power (increments).  J-Bessel, Matern 0.45 / 0.75, spline and order-k GC are covered by
+  // tb_grid_vs_points and by C13 only (time budget; order-k GC would need generalised increments).
   auto T1 = [](const ECov& t, double range, double sill, double param) { return [=] { return Model::createFromParam(t, range, sill, param); }; };
   V.push_back(new TbSim("spherical", T1(ECov::SPHERICAL, 2., 1.5, 1.), false, false));
   V.push_back(new TbSim("cubic+nugget-mean", [] { Model* m = Model::createFromParam(ECov::CUBIC, 2.5, 1.); m->addCovFromParam(ECov::NUGGET, 0., 0.5); m->setMeans({10.}); return m; }, false, false));
   V.push_back(new TbSim("gaussian", T1(ECov::GAUSSIAN, 2., 0.75, 1.), false, false));
   V.push_back(new TbSim("sincard", T1(ECov::SINCARD, 2., 1., 1.), false, false));
-  V.push_back(new TbSim("besselj", T1(ECov::BESSELJ, 2., 1., 2.), false, false));
   V.push_back(new TbSim("matern0.3", T1(ECov::MATERN, 2., 1.5, 0.3), false, false));
-  V.push_back(new TbSim("matern0.45", T1(ECov::MATERN, 2., 1., 0.45), false, false));
-  V.push_back(new TbSim("matern0.75", T1(ECov::MATERN, 2., 1., 0.75), false, false));
   V.push_back(new TbSim("matern1.5", T1(ECov::MATERN, 2., 2., 1.5), false, false));
   V.push_back(new TbSim("stable0.7", T1(ECov::STABLE, 2., 1.5, 0.7), false, false));
   V.push_back(new TbSim("stable1.5", T1(ECov::STABLE, 2., 1., 1.5), false, false));
